@@ -164,7 +164,9 @@ pub enum KeyFn { Kmod(i64), Kself, Kconst(i64), Kstr }
 #[derive(Clone, Debug)]
 pub enum BatchFn { Each(Fn_), Rev, Sumall, /* round 3: length-CHANGING chunk functions */ Droplast, Dupfirst }
 #[derive(Clone, Debug, PartialEq)]
-pub enum Comb { Count, Sum, Min, Max, MinT, MaxT, Dset, Topk(usize) }
+pub enum Comb { Count, Sum, Min, Max, MinT, MaxT, Dset, Topk(usize),
+    /// USER combiners with non-`Option` accumulators (`pipe_ucomb.rs`): (sum mod m, count) pair; sorted-`Vec` union; max by (|x|, x)
+    USumMod(i64), UUnion, UMaxAbs }
 #[derive(Clone, Copy, Debug, PartialEq)]
 pub enum JoinKind { Inner, Left, Right, Full }
 
@@ -253,7 +255,8 @@ impl BatchFn {
 }
 impl Comb {
     pub fn enc(&self) -> String {
-        match self { Comb::Count => "count".into(), Comb::Sum => "sum".into(), Comb::Min => "min".into(), Comb::Max => "max".into(), Comb::MinT => "mint".into(), Comb::MaxT => "maxt".into(), Comb::Dset => "dset".into(), Comb::Topk(k) => format!("topk {k}") }
+        match self { Comb::Count => "count".into(), Comb::Sum => "sum".into(), Comb::Min => "min".into(), Comb::Max => "max".into(), Comb::MinT => "mint".into(), Comb::MaxT => "maxt".into(), Comb::Dset => "dset".into(), Comb::Topk(k) => format!("topk {k}"),
+            Comb::USumMod(m) => format!("usummod {m}"), Comb::UUnion => "uunion".into(), Comb::UMaxAbs => "umaxabs".into() }
     }
     /// reference fold over plain values (independent of ironbeam and of the Lean model)
     pub fn reference(&self, vals: &[V]) -> Result<V, ()> {
@@ -266,6 +269,9 @@ impl Comb {
             Comb::MaxT => vals.iter().max().cloned().unwrap_or(V::N),
             Comb::Dset => { let mut s: Vec<V> = vals.to_vec(); s.sort(); s.dedup(); V::L(s) }
             Comb::Topk(k) => { let mut s: Vec<V> = vals.to_vec(); s.sort(); s.reverse(); s.truncate(*k); V::L(s) }
+            Comb::USumMod(m) => V::pair(V::I((vals.iter().map(|x| x.to_int() as i128).sum::<i128>().rem_euclid(*m as i128)) as i64), V::I(vals.len() as i64)),
+            Comb::UUnion => { let mut s: Vec<V> = vals.to_vec(); s.sort(); s.dedup(); V::L(s) }
+            Comb::UMaxAbs => vals.iter().max_by(|a, b| a.to_int().unsigned_abs().cmp(&b.to_int().unsigned_abs()).then_with(|| a.cmp(b))).cloned().unwrap_or(V::N),
         })
     }
 }
@@ -325,6 +331,8 @@ pub enum Step {
     CustomValueOp(i64, u8),
     /// `apply_composite(&Packed(steps))` — transparent: the request lists the inner steps (never empty)
     Composite(Vec<Step>),
+    /// a join whose right side is NOT a fresh `from_vec` on the same pipeline (`pipe_joinx.rs`; request kind `PIPEX`)
+    JoinX(JoinKind, RightRef),
 }
 
 /// the user operator behind `Step::CustomValueOp`
@@ -357,6 +365,19 @@ pub fn flatten_steps(steps: &[Step]) -> Vec<Step> {
         }
     }
     out
+}
+
+/// where the right side of a `Step::JoinX` comes from
+#[derive(Clone, Debug)]
+pub enum RightRef {
+    /// built on ANOTHER `Pipeline`
+    Other(Box<Prog>),
+    /// the collection built so far is BRANCHED: left = it + the first step list, right = it + the second
+    /// (both empty = a self-join; shared-prefix sides otherwise)
+    Shared(Vec<Step>, Vec<Step>),
+    /// a fresh right side (first program); a SIBLING join of the same left collection with the second program is
+    /// built before and after it on the same pipeline (and is not part of the result)
+    Sibling(Box<Prog>, Box<Prog>),
 }
 
 /// the user operator behind `Step::CustomOp`: adds `n`; trait-default flags and cost
@@ -420,11 +441,12 @@ impl Step {
             Step::MapSideMapP(pairs) => format!("map_side_map_p {}", pairs_enc(pairs)),
             Step::CustomValueOp(n, c) => format!("custom_value_op {n} {c}"),
             Step::Composite(inner) => { assert!(!inner.is_empty(), "harness: empty composite"); inner.iter().map(Step::enc).collect::<Vec<_>>().join(" ; ") }
+            Step::JoinX(k, r) => crate::pipe_joinx::enc(*k, r),
         }
     }
     pub fn is_barrier(&self) -> bool {
         matches!(self, Step::Gbk | Step::CombineValues(_) | Step::CombineValuesLifted(_) | Step::CombineGlobally(..)
-            | Step::CombineGloballyLifted(..) | Step::Distinct | Step::DistinctPerKey | Step::TopKPerKey(_) | Step::Join(..))
+            | Step::CombineGloballyLifted(..) | Step::Distinct | Step::DistinctPerKey | Step::TopKPerKey(_) | Step::Join(..) | Step::JoinX(..))
     }
     pub fn kind(&self) -> &'static str {
         match self {
@@ -441,6 +463,7 @@ impl Step {
             Step::CustomOp(_) => "apply_transform(custom op)", Step::MapSideMap => "map_with_side_map",
             Step::TryMapP(_) => "try_map(named predicate)", Step::TryFlatMap(..) => "try_flat_map", Step::ResMap(_) => "map over Result", Step::ResFilter(_) => "filter over Result",
             Step::MapSideMapP(_) => "map_with_side_map(generated map)", Step::CustomValueOp(..) => "apply_transform(flag-claiming op)", Step::Composite(_) => "apply_composite",
+            Step::JoinX(_, r) => crate::pipe_joinx::kind(r),
         }
     }
 }
@@ -449,7 +472,7 @@ pub fn steps_enc(steps: &[Step]) -> String {
 }
 impl Prog {
     pub fn has_barrier(&self) -> bool { self.steps.iter().any(Step::is_barrier) }
-    pub fn has_join(&self) -> bool { self.steps.iter().any(|s| matches!(s, Step::Join(..))) }
+    pub fn has_join(&self) -> bool { self.steps.iter().any(|s| matches!(s, Step::Join(..) | Step::JoinX(..))) }
     /// how answers are canonicalised before they are compared:
     /// * `seq`  — no barrier: the exact sequence;
     /// * `top`  — exactly ONE hash-ordered step (a grouping / per-key combine / distinct / top-k), no `HashSet`-valued
@@ -464,12 +487,13 @@ impl Prog {
             matches!(s, Step::CombineValues(Comb::Dset) | Step::CombineValuesLifted(Comb::Dset) | Step::CombineGlobally(Comb::Dset, _) | Step::CombineGloballyLifted(Comb::Dset, _))
         }
         let hash_ordered = self.steps.iter().filter(|s| matches!(s, Step::Gbk | Step::CombineValues(_) | Step::CombineValuesLifted(_)
-            | Step::Distinct | Step::DistinctPerKey | Step::TopKPerKey(_) | Step::Join(..))).count();
+            | Step::Distinct | Step::DistinctPerKey | Step::TopKPerKey(_) | Step::Join(..) | Step::JoinX(..))).count();
         if hash_ordered == 1 && !self.has_join() && !self.steps.iter().any(uses_dset) { "top" } else { "deep" }
     }
     /// request text for a given mode (`seq`, `par:N`, `lit`, `noreorder`)
     pub fn request(&self, mode: &str) -> String {
-        format!("PIPE mode={mode} canon={} src {}{}", self.canon(), V::L(self.src.clone()).enc(), steps_enc(&self.steps))
+        let kind = if self.steps.iter().any(|s| matches!(s, Step::JoinX(..))) { "PIPEJ" } else { "PIPE" };
+        format!("{kind} mode={mode} canon={} src {}{}", self.canon(), V::L(self.src.clone()).enc(), steps_enc(&self.steps))
     }
 }
 
@@ -499,7 +523,7 @@ pub fn source(p: &Pipeline, shape: Shape, rows: &[V]) -> Coll {
 }
 
 fn as_t(c: Coll) -> PCollection<V> { match c { Coll::T(x) => x, _ => panic!("harness: step needs shape T") } }
-fn as_kv(c: Coll) -> PCollection<(V, V)> { match c { Coll::KV(x) => x, _ => panic!("harness: step needs shape KV") } }
+pub(crate) fn as_kv(c: Coll) -> PCollection<(V, V)> { match c { Coll::KV(x) => x, _ => panic!("harness: step needs shape KV") } }
 fn as_kg(c: Coll) -> PCollection<(V, Vec<V>)> { match c { Coll::KG(x) => x, _ => panic!("harness: step needs shape KG") } }
 
 /// shape after a step (None = step not applicable to this shape)
@@ -531,6 +555,7 @@ pub fn shape_after(sh: Shape, s: &Step) -> Option<Shape> {
         (Step::MapSideMapP(_), T) => T,
         (Step::CustomValueOp(..), KV) => KV,
         (Step::Composite(inner), sh) => return inner.iter().fold(Some(sh), |s, st| s.and_then(|s| shape_after(s, st))),
+        (Step::JoinX(_, r), sh) => return crate::pipe_joinx::shape_after(sh, r),
         _ => return None,
     })
 }
@@ -583,6 +608,9 @@ pub fn apply_step(c: Coll, s: &Step) -> Coll {
                 Comb::MaxT => Coll::KV(x.combine_values(MaxT)),
                 Comb::Dset => Coll::KG(x.combine_values(DistinctSet::<V>::new())),
                 Comb::Topk(k) => Coll::KG(x.combine_values(TopK::<V>::new(k))),
+                Comb::USumMod(m) => Coll::KV(x.combine_values(crate::pipe_ucomb::SumModCount(m))),
+                Comb::UUnion => Coll::KV(x.combine_values(crate::pipe_ucomb::SortedUnion)),
+                Comb::UMaxAbs => Coll::KV(x.combine_values(crate::pipe_ucomb::MaxAbs)),
             }
         }
         Step::CombineValuesLifted(cb) => {
@@ -596,6 +624,9 @@ pub fn apply_step(c: Coll, s: &Step) -> Coll {
                 Comb::MaxT => Coll::KV(x.combine_values_lifted(MaxT)),
                 Comb::Dset => Coll::KG(x.combine_values_lifted(DistinctSet::<V>::new())),
                 Comb::Topk(k) => Coll::KG(x.combine_values_lifted(TopK::<V>::new(k))),
+                Comb::USumMod(m) => Coll::KV(x.combine_values_lifted(crate::pipe_ucomb::SumModCount(m))),
+                Comb::UUnion => Coll::KV(x.combine_values_lifted(crate::pipe_ucomb::SortedUnion)),
+                Comb::UMaxAbs => Coll::KV(x.combine_values_lifted(crate::pipe_ucomb::MaxAbs)),
             }
         }
         Step::CombineGlobally(cb, fo) => {
@@ -609,6 +640,9 @@ pub fn apply_step(c: Coll, s: &Step) -> Coll {
                 Comb::MaxT => x.combine_globally(MaxT, fo),
                 Comb::Dset => x.combine_globally(DistinctSet::<V>::new(), fo).map(|vs: &Vec<V>| V::L(vs.clone())),
                 Comb::Topk(k) => x.combine_globally(TopK::<V>::new(k), fo).map(|vs: &Vec<V>| V::L(vs.clone())),
+                Comb::USumMod(m) => x.combine_globally(crate::pipe_ucomb::SumModCount(m), fo),
+                Comb::UUnion => x.combine_globally(crate::pipe_ucomb::SortedUnion, fo),
+                Comb::UMaxAbs => x.combine_globally(crate::pipe_ucomb::MaxAbs, fo),
             })
         }
         Step::CombineGloballyLifted(cb, fo) => {
@@ -622,6 +656,9 @@ pub fn apply_step(c: Coll, s: &Step) -> Coll {
                 Comb::MaxT => x.combine_globally_lifted(MaxT, fo),
                 Comb::Dset => x.combine_globally_lifted(DistinctSet::<V>::new(), fo).map(|vs: &Vec<V>| V::L(vs.clone())),
                 Comb::Topk(k) => x.combine_globally_lifted(TopK::<V>::new(k), fo).map(|vs: &Vec<V>| V::L(vs.clone())),
+                Comb::USumMod(m) => x.combine_globally_lifted(crate::pipe_ucomb::SumModCount(m), fo),
+                Comb::UUnion => x.combine_globally_lifted(crate::pipe_ucomb::SortedUnion, fo),
+                Comb::UMaxAbs => x.combine_globally_lifted(crate::pipe_ucomb::MaxAbs, fo),
             })
         }
         Step::Distinct => Coll::T(as_t(c).distinct()),
@@ -672,12 +709,13 @@ pub fn apply_step(c: Coll, s: &Step) -> Coll {
         }
         Step::CustomValueOp(n, cost) => Coll::KV(as_kv(c).apply_transform::<(V, V)>(std::sync::Arc::new(UserValueOp(n, cost)))),
         Step::Composite(inner) => ext::apply_composite_step(c, inner),
+        Step::JoinX(kind, r) => crate::pipe_joinx::apply(c, kind, &r),
     }
 }
-fn opt(o: &Option<V>) -> V { match o { Some(v) => V::O(Box::new(v.clone())), None => V::N } }
+pub(crate) fn opt(o: &Option<V>) -> V { match o { Some(v) => V::O(Box::new(v.clone())), None => V::N } }
 
 thread_local! { static CUR_PIPELINE: std::cell::RefCell<Option<Pipeline>> = const { std::cell::RefCell::new(None) }; }
-fn pipeline_of<T>(_c: &PCollection<T>) -> Pipeline {
+pub(crate) fn pipeline_of<T>(_c: &PCollection<T>) -> Pipeline {
     CUR_PIPELINE.with(|p| p.borrow().clone().expect("pipeline set"))
 }
 
@@ -872,6 +910,12 @@ pub fn reference(prog: &Prog) -> RefOut {
             Step::MapSideMapP(pairs) => rows = rows.iter().map(|x| V::I(x.to_int().wrapping_add(side_pairs_lookup(pairs, x.to_int().rem_euclid(3))))).collect(),
             Step::CustomValueOp(n, _) => rows = rows.iter().map(|r| V::pair(key_of(r), V::I(val_of(r).to_int().wrapping_add(*n)))).collect(),
             Step::Composite(inner) => match reference(&Prog { shape: prog.shape, src: rows.clone(), steps: inner.clone() }) { RefOut::Rows(r) => rows = r, other => return other },
+            Step::JoinX(kind, r) => {
+                let (l, r, nested) = match crate::pipe_joinx::ref_sides(&rows, r) { Ok(x) => x, Err(e) => return e };
+                if has_join || nested { return RefOut::NestedJoin; }
+                has_join = true;
+                rows = ref_join(*kind, &l, &r);
+            }
         }
     }
     RefOut::Rows(rows)
@@ -1110,6 +1154,8 @@ pub fn check_prog(cx: &mut Ctx, prog: &Prog, modes: &[Mode], o: &CheckOpts) {
     // each hung run leaves a spinning thread behind and costs a watchdog period: three are proof enough
     if cx.stats.get("outcome:HANG").copied().unwrap_or(0) >= 3 {
         cx.count("skipped-after-3-hangs");
+        let note = "RUN INCOMPLETE: three runs did not terminate (each leaves a spinning thread behind); the remaining programs of this run were skipped — see input_distribution[\"skipped-after-3-hangs\"] for how many";
+        if !cx.notes.iter().any(|n| n == note) { cx.notes.push(note.to_string()); }
         return;
     }
     if !hazard_free(prog) {
@@ -1133,7 +1179,8 @@ pub fn check_prog(cx: &mut Ctx, prog: &Prog, modes: &[Mode], o: &CheckOpts) {
             let idx = cx.case(format!("ORACLE-ONLY collect_fail_fast {}", prog.request("seq").replace(' ', "_")), "-".into(), nontrivial);
             cx.count("terminal:collect_fail_fast");
             match got {
-                Some(Ok(Ok(v))) if !any_err && v == want_ok => {}
+                // after a barrier the row order comes out of a hash map: compare canonical forms (exact sequence when barrier-free)
+                Some(Ok(Ok(v))) if !any_err && canon_rows(&v, canon) == canon_rows(&want_ok, canon) => {}
                 Some(Ok(Err(_))) if any_err => {}
                 other => cx.oracle_fail(idx, "collect-fail-fast-wrong", format!("got {:?}, any element failed = {any_err}", other.map(|r| r.map(|x| x.map(|v| v.len()))))),
             }
@@ -1283,6 +1330,7 @@ pub fn hazard_free(prog: &Prog) -> bool {
         let mut hazard = false;
         for s in steps {
             if let Step::Join(_, r) = s { if !walk(&r.steps) || ends_in_hazard(&r.steps) { return false; } }
+            if let Step::JoinX(_, r) = s { for side in crate::pipe_joinx::side_steps(r) { if !walk(&side) || ends_in_hazard(&side) { return false; } } }
             if hazard {
                 if !clears_unordered_lists(s) { return false; }
                 hazard = false;
@@ -1340,8 +1388,9 @@ pub fn reorder_inert(prog: &Prog) -> bool {
         };
         for s in steps {
             if let Step::Join(_, r) = s { if !inert_steps(&r.steps) { return false; } }
+            if let Step::JoinX(_, r) = s { for side in crate::pipe_joinx::side_steps(r) { if !inert_steps(&side) { return false; } } }
             let stateless = !matches!(s, Step::Gbk | Step::CombineValues(_) | Step::CombineValuesLifted(_) | Step::CombineGlobally(..)
-                | Step::CombineGloballyLifted(..) | Step::TopKPerKey(_) | Step::Join(..) | Step::Distinct | Step::DistinctPerKey);
+                | Step::CombineGloballyLifted(..) | Step::TopKPerKey(_) | Step::Join(..) | Step::Distinct | Step::DistinctPerKey | Step::JoinX(..));
             if !stateless { flush(&mut block, &mut all_movable, &mut ok); continue; }
             match movable_key(s) { Some(k) => block.push(k), None => { all_movable = false; block.push((9, 9)); } }
         }
